@@ -2573,7 +2573,8 @@ def distributed_shampoo(
     errors = metrics.inverse_pth_root_errors
     errors = errors.reshape((-1, 1, 1))
     predicate = jnp.logical_or(
-        jnp.isnan(errors), errors >= inverse_failure_threshold)
+        jnp.logical_not(jnp.isfinite(errors)),
+        errors >= inverse_failure_threshold)
     # Select, do not blend: 0 * NaN is NaN, so an arithmetic blend lets a
     # rejected non-finite root poison the stored preconditioner.
     new_conditional_preconditioners = jnp.where(
@@ -2941,7 +2942,8 @@ def distributed_shampoo(
 
     def _skip(error):
       condition = jnp.logical_or(
-          jnp.isnan(error), error >= inverse_failure_threshold)
+          jnp.logical_not(jnp.isfinite(error)),
+          error >= inverse_failure_threshold)
       return condition.astype(error.dtype)
 
     def _select_preconditioner(error, new_p, old_p):
@@ -3188,7 +3190,8 @@ def distributed_shampoo(
 
     def _skip(error):
       condition = jnp.logical_or(
-          jnp.isnan(error), error >= inverse_failure_threshold)
+          jnp.logical_not(jnp.isfinite(error)),
+          error >= inverse_failure_threshold)
       return condition.astype(error.dtype)
 
     def _select_preconditioner(error, new_p, old_p):
@@ -3382,7 +3385,8 @@ def distributed_shampoo(
 
     def _skip(error):
       condition = jnp.logical_or(
-          jnp.isnan(error), error >= inverse_failure_threshold)
+          jnp.logical_not(jnp.isfinite(error)),
+          error >= inverse_failure_threshold)
       return condition.astype(error.dtype)
 
     def _select_preconditioner(error, new_p, old_p):
